@@ -494,7 +494,7 @@ def evaluate(doc: dict, fmt: str, kind: str) -> tuple[str, str] | None:
                     dumped = obj.dict(by_alias=True, exclude_unset=True)
         except Exception as e:  # noqa: BLE001
             # what the emitted classes shadow is part of the observation (pydantic v2 evaluates annotations inside the class namespace)
-            return ("sample_rejected", f"{type(e).__name__}: {str(e)[:300]}" + (c16_names.shadow_tag(code) if kind == "pydantic_v2.BaseModel" else ""))
+            return ("sample_rejected", f"{type(e).__name__}: {str(e)[:300]}" + (c16_names.shadow_tag(code) + c16_singular.alias_tag(code, doc) if kind == "pydantic_v2.BaseModel" else ""))
         diff = keys_differ(doc, dumped)
         if diff:
             return ("keys_differ", diff)
@@ -599,6 +599,8 @@ def cause_of(mechanism: str, observed: str) -> str:
         return c16_singular.cause_from_tag(observed)   # class_name_is_empty | class_name_is_keyword | class_name_is_not_identifier
     if mechanism == "sample_rejected" and c16_names.cause_from_tag(observed):
         return c16_names.cause_from_tag(observed)   # member_shadows_own_type_class | member_shadows_sibling_type_class
+    if mechanism == "sample_rejected" and c16_singular.cause_from_alias_tag(observed):
+        return c16_singular.cause_from_alias_tag(observed)   # the rename pass wrote the Python name over the member's wire name
     return "other"
 
 
